@@ -13,7 +13,7 @@ import warnings
 warnings.filterwarnings("ignore")
 logging.disable(logging.CRITICAL)
 
-MODULES = ["native.h_tracker", "native.h_time", "native.h_roms", "native.h_state", "native.h_output", "native.h_forcing", "native.h_release", "native.h_config", "native.h_model"]
+MODULES = ["native.h_tracker", "native.h_time", "native.h_roms", "native.h_state", "native.h_output", "native.h_forcing", "native.h_release", "native.h_config", "native.h_model", "native.h_validate"]
 
 
 def main():
